@@ -48,3 +48,112 @@ package transform
 //@ extern go.opentelemetry.io/otel/sdk/log Record.WalkAttributes(f func(api.KeyValue) bool)
 //@   trusted "read-only iteration over the record's attributes (sdk/log, another module); the callback's writes to captured variables are not modelled"
 //@   modifies
+
+// grouping: every record is filed under the (resource identity, FULL instrumentation scope - name, version, schema URL and
+// attributes) of that very record and converted exactly once; the scope message carries the scope's own name, version, schema URL
+//@ func ResourceLogs(records []log.Record) (out []*lpb.ResourceLogs)
+//@   overflow assumed
+//@   unchecked no-panic,frame map-of-pointer values loaded inside the loop need a quantified invariant over a function-local key type
+//@   ensures len(records) == 0 ==> len(out) == 0
+//@   assert@call LogRecord#1 : $arg0 == r && k.r == rKey && k.is == scope
+//@   assert@call mapupdate#1 : $arg1 == k && k.r == rKey && k.is == scope && $arg2 == sl && !iOk
+//@   assert@call mapupdate#2 : $arg1 == rKey && $arg2 == rl && !rOk
+//@   assert@store Name#* : $val == scope.Name
+//@   assert@store Version#* : $val == scope.Version
+//@   assert@store SchemaUrl#1 : $val == scope.SchemaURL
+
+// ======================================================================== C13 attributes: the eight value kinds
+// slice helpers: same length, element i is a fresh AnyValue of the matching oneof kind holding exactly vals[i]
+//@ func boolSliceValues(vals []bool) (converted []*cpb.AnyValue)
+//@   prop C13
+//@   overflow assumed
+//@   unchecked frame fresh protobuf messages are written
+//@   ensures len(converted) == len(vals)
+//@   assert@store elem#* : $val != nil && typeis($val.Value, "*cpb.AnyValue_BoolValue") && cast($val.Value, "*cpb.AnyValue_BoolValue").BoolValue == vals[i] && 0 <= i && i < len(vals)
+//@   loop#1 invariant len(converted) == len(vals) && fresh(converted)
+//@ func int64SliceValues(vals []int64) (converted []*cpb.AnyValue)
+//@   prop C13
+//@   overflow assumed
+//@   unchecked frame fresh protobuf messages are written
+//@   ensures len(converted) == len(vals)
+//@   assert@store elem#* : $val != nil && typeis($val.Value, "*cpb.AnyValue_IntValue") && cast($val.Value, "*cpb.AnyValue_IntValue").IntValue == vals[i] && 0 <= i && i < len(vals)
+//@   loop#1 invariant len(converted) == len(vals) && fresh(converted)
+//@ func float64SliceValues(vals []float64) (converted []*cpb.AnyValue)
+//@   prop C13
+//@   overflow assumed
+//@   unchecked frame fresh protobuf messages are written
+//@   ensures len(converted) == len(vals)
+//@   assert@store elem#* : $val != nil && typeis($val.Value, "*cpb.AnyValue_DoubleValue") && cast($val.Value, "*cpb.AnyValue_DoubleValue").DoubleValue === vals[i] && 0 <= i && i < len(vals)
+//@   loop#1 invariant len(converted) == len(vals) && fresh(converted)
+//@ func stringSliceValues(vals []string) (converted []*cpb.AnyValue)
+//@   prop C13
+//@   overflow assumed
+//@   unchecked frame fresh protobuf messages are written
+//@   ensures len(converted) == len(vals)
+//@   assert@store elem#* : $val != nil && typeis($val.Value, "*cpb.AnyValue_StringValue") && cast($val.Value, "*cpb.AnyValue_StringValue").StringValue == vals[i] && 0 <= i && i < len(vals)
+//@   loop#1 invariant len(converted) == len(vals) && fresh(converted)
+
+// AttrValue: the oneof kind follows the attribute's type; scalars carry exactly the attribute's value; anything else is the string "INVALID"
+//@ func AttrValue(v attribute.Value) (av *cpb.AnyValue)
+//@   prop C13
+//@   overflow assumed
+//@   unchecked frame,no-panic fresh protobuf messages are written; slice values are unpacked through reflection (attribute/internal)
+//@   ensures av != nil
+//@   ensures v.vtype == attribute.BOOL ==> typeis(av.Value, "*cpb.AnyValue_BoolValue") && cast(av.Value, "*cpb.AnyValue_BoolValue").BoolValue == v.AsBool()
+//@   ensures v.vtype == attribute.INT64 ==> typeis(av.Value, "*cpb.AnyValue_IntValue") && cast(av.Value, "*cpb.AnyValue_IntValue").IntValue == v.AsInt64()
+//@   ensures v.vtype == attribute.FLOAT64 ==> typeis(av.Value, "*cpb.AnyValue_DoubleValue") && cast(av.Value, "*cpb.AnyValue_DoubleValue").DoubleValue === v.AsFloat64()
+//@   ensures v.vtype == attribute.STRING ==> typeis(av.Value, "*cpb.AnyValue_StringValue") && cast(av.Value, "*cpb.AnyValue_StringValue").StringValue == v.AsString()
+//@   ensures v.vtype == attribute.BOOLSLICE || v.vtype == attribute.INT64SLICE || v.vtype == attribute.FLOAT64SLICE || v.vtype == attribute.STRINGSLICE ==> typeis(av.Value, "*cpb.AnyValue_ArrayValue")
+//@   ensures v.vtype == attribute.INVALID ==> typeis(av.Value, "*cpb.AnyValue_StringValue") && cast(av.Value, "*cpb.AnyValue_StringValue").StringValue == "INVALID"
+//@   assert@call boolSliceValues#1 : v.vtype == attribute.BOOLSLICE
+//@   assert@call int64SliceValues#1 : v.vtype == attribute.INT64SLICE
+//@   assert@call float64SliceValues#1 : v.vtype == attribute.FLOAT64SLICE
+//@   assert@call stringSliceValues#1 : v.vtype == attribute.STRINGSLICE
+
+// Attr / Attrs: key copied, value converted by AttrValue; the list keeps length and order
+//@ func Attr(kv attribute.KeyValue) (r *cpb.KeyValue)
+//@   prop C13
+//@   overflow assumed
+//@   unchecked frame,no-panic fresh protobuf messages are written
+//@   ensures r != nil && r.Key == kv.Key && r.Value != nil
+//@   assert@call AttrValue#1 : $arg0 == kv.Value
+//@ func Attrs(attrs []attribute.KeyValue) (out []*cpb.KeyValue)
+//@   prop C13
+//@   overflow assumed
+//@   unchecked frame fresh protobuf messages are written
+//@   ensures len(out) == len(attrs)
+//@   assert@call Attr#* : $arg0 == attrs[$k]
+//@   loop#1 invariant len(out) == $k && $k <= len(attrs) && cap(out) == len(attrs)
+
+// AttrIter: one key-value per attribute the iterator yields, in iteration order, each converted by Attr
+//@ func AttrIter(iter attribute.Iterator) (out []*cpb.KeyValue)
+//@   prop C13
+//@   overflow assumed
+//@   unchecked frame,no-panic fresh protobuf messages are written; the iterator reads reflect-built storage
+//@   requires iter.storage != nil && iter.idx >= -1 && iter.idx <= setLen(iter.storage.equivalent)
+//@   loop#1 invariant iter.storage != nil && iter.idx >= -1 && iter.idx <= setLen(iter.storage.equivalent)
+//@   assert@call Attr#* : $arg0 == iter.Attribute()
+
+// log values: the oneof kind follows the value's kind; scalars and strings carry exactly the value's content, bytes the very byte
+// slice, lists and maps are converted element by element from the value's own list / map; anything else is the string "INVALID"
+//@ func LogAttrValue(v api.Value) (av *cpb.AnyValue)
+//@   prop C13
+//@   overflow assumed
+//@   unchecked frame,no-panic fresh protobuf messages are written; recursion through LogAttrValues / LogAttrs
+//@   ensures av != nil
+//@   ensures v.Kind() == api.KindBool ==> typeis(av.Value, "*cpb.AnyValue_BoolValue") && cast(av.Value, "*cpb.AnyValue_BoolValue").BoolValue == v.AsBool()
+//@   ensures v.Kind() == api.KindInt64 ==> typeis(av.Value, "*cpb.AnyValue_IntValue") && cast(av.Value, "*cpb.AnyValue_IntValue").IntValue == v.AsInt64()
+//@   ensures v.Kind() == api.KindFloat64 ==> typeis(av.Value, "*cpb.AnyValue_DoubleValue") && cast(av.Value, "*cpb.AnyValue_DoubleValue").DoubleValue === v.AsFloat64()
+//@   ensures v.Kind() == api.KindString ==> typeis(av.Value, "*cpb.AnyValue_StringValue") && cast(av.Value, "*cpb.AnyValue_StringValue").StringValue == v.AsString()
+//@   ensures v.Kind() == api.KindBytes ==> typeis(av.Value, "*cpb.AnyValue_BytesValue")
+//@   ensures v.Kind() == api.KindSlice ==> typeis(av.Value, "*cpb.AnyValue_ArrayValue")
+//@   ensures v.Kind() == api.KindMap ==> typeis(av.Value, "*cpb.AnyValue_KvlistValue")
+//@   ensures v.Kind() == api.KindEmpty ==> typeis(av.Value, "*cpb.AnyValue_StringValue") && cast(av.Value, "*cpb.AnyValue_StringValue").StringValue == "INVALID"
+//@   assert@call LogAttrValues#1 : v.Kind() == api.KindSlice && $arg0 === v.AsSlice()
+//@   assert@call LogAttrs#1 : v.Kind() == api.KindMap && $arg0 === v.AsMap()
+//@ func LogAttr(attr api.KeyValue) (r *cpb.KeyValue)
+//@   prop C13
+//@   overflow assumed
+//@   unchecked frame,no-panic fresh protobuf messages are written
+//@   ensures r != nil && r.Key == attr.Key && r.Value != nil
+//@   assert@call LogAttrValue#1 : $arg0 == attr.Value
